@@ -30,8 +30,15 @@ driver_open_device(struct Driver* driver,
     CHECK(Device_Ok == driver->open(driver, device_id, out));
 
     CHECK(*out);
-    CHECK(Device_Ok ==
-          driver->describe(driver, &out[0]->identifier, device_id));
+    if (Device_Ok != driver->describe(driver, &out[0]->identifier, device_id)) {
+        LOGE("Failed to describe device %d.", (int)device_id);
+        // Hand the device back: the caller only sees the failure and would
+        // never close it.
+        if (driver->close)
+            driver->close(driver, *out);
+        *out = 0;
+        goto Error;
+    }
     (*out)->driver = driver;
     return Device_Ok;
 Error:
